@@ -444,6 +444,9 @@ func (u *Unit) applyLitByContract(env *Env, li *litInfo, fn Term, sig *types.Sig
 		u.assert(env, fmt.Sprintf("pre/lit%d/%s", li.ord, label), "pre", at.Pos(), cl.Text, t)
 		env.assume(t)
 	}
+	if u.litTarget != nil && u.litTarget == li.lit {
+		u.checkDecreases(env, blk, &sc, at, "/lit")
+	}
 	if blk.Opts["effects"] == "trace" {
 		u.havocTrace(env)
 	}
